@@ -112,6 +112,15 @@ Theorem trace_pipeline_terminates : forall rows : list spank,
 Proof. exact trace_chain_terminates. Qed.
 Print Assumptions trace_pipeline_terminates.
 
+(* One tick of the live tail (/loki/api/v1/tail): Scan, any in-process stages, the tail encoder, and the websocket loop
+   that returns at the first failed write or context cancellation, leaving its deferred drainer behind. *)
+Theorem tail_tick_pipeline_terminates : forall (opsl : list ops) (rows : list row), Forall ops_nofatal opsl ->
+  let c0 := init_config (map MRow rows) (tail_tick opsl) in
+  Acc (fun c' c1 : config st msg => step c1 c') c0 /\
+  forall cf, star c0 cf -> crashed cf = false /\ (quiescent cf -> all_done (cells cf)).
+Proof. exact tail_tick_terminates. Qed.
+Print Assumptions tail_tick_pipeline_terminates.
+
 (* Scan's entries[i] stays inside its 100-slot buffer for every row script. *)
 Theorem scan_index_in_buffer : forall rows, 0 <= scan_index rows 0 < 100.
 Proof. intros rows. apply scan_index_bound. split; [apply Z.le_refl|reflexivity]. Qed.
